@@ -117,7 +117,10 @@ def checkConsts (j : Json) : Except String Unit := do
 
 def getParams (j : Json) : Except String Params := do
   checkConsts (← field j "consts")
-  let prm : Params := { propOps := ← listOf getStr (← field j "prop_ops") }
+  -- `stateUpSymOnly` is NOT read from the real code: the current value is part of the model, so a
+  -- revert of the repair shows as a difference; a request may pin the old behaviour explicitly
+  let prm : Params := { propOps := ← listOf getStr (← field j "prop_ops"),
+                        stateUpSymOnly := (fieldD j "state_up_sym_only" (Json.bool true)) != Json.bool false }
   if !paramsOk prm then
     throw "params: field_read or call_stmt missing from the propagating operations (the rule loop of apply_propagation_rules would be live)"
   pure prm
@@ -156,7 +159,8 @@ def handle (j : Json) : Except String Json := do
   let allDone := envs.all (fun (_, e) => e.wl.isEmpty)
   let flows := if allDone then findFlows vr g prm rs srcNodes sinks else []
   let noneSrc := sources.any (·.isNone) && !sinks.isEmpty
-  let err := allDone && flowsErr vr g prm rs srcNodes sinks
+  -- (= flowsErr vr g prm rs srcNodes sinks, read off the sink tags computed above instead of propagating again)
+  let err := allDone && envs.any (fun (_, e) => sinks.any (fun k => (sinkTag vr g rs e k).err))
   pure (Json.mkObj [
     ("typed", jBool (typed g)), ("edge_typed", jBool (edgeTyped g)), ("rules_wf", jBool (rulesWf rs)),
     ("sources", jList jOptNat sources), ("sinks", jList jNat sinks),
@@ -219,7 +223,7 @@ def handleWitnesses (prm : Params) : Json :=
   Json.mkObj [("prm0", jList Json.str LianVerif.TaintWitness.prm0.propOps), ("cases",
   jList (fun (c : LianVerif.TaintWitness.WCase) =>
     Json.mkObj [("name", Json.str c.name), ("graph", jGraph c.g), ("rules", jRules c.rs),
-      ("frozen", jOutcome c.frozen c.g prm c.rs), ("current", jOutcome current c.g prm c.rs)])
+      ("frozen", jOutcome c.frozen c.g (c.frozenPrm prm) c.rs), ("current", jOutcome current c.g prm c.rs)])
     LianVerif.TaintWitness.allCases)]
 
 /-- request {"m":"taintrules",…}: per node the decision of every matcher, in the order
